@@ -39,12 +39,16 @@ pub struct Gen {
     pub min_consumers: usize,
     /// consumers may drop their stream themselves as soon as it answered end-of-stream (as an executor task does)
     pub drop_on_end:   bool,
+    /// an extra thread calls gracefully_end_all_streams() at a generated point (every consumer then drops its stream when it ended)
+    pub end_all:       bool,
+    /// an extra thread calls gracefully_end_stream() on one consumer's stream at a generated point
+    pub end_one:       bool,
 }
 
 impl Default for Gen {
     fn default() -> Self {
         Gen { kinds: &UNI_KINDS, max_streams: &[1, 2, 4], buffers: &[2, 4, 8], max_producers: 3, max_ops: 3, max_consumers: 3, retry: false, fresh_wakers: false,
-              origins: false, prefill: false, canceller: false, churn: false, handles: false, async_ops: false, min_consumers: 1, drop_on_end: false }
+              origins: false, prefill: false, canceller: false, churn: false, handles: false, async_ops: false, min_consumers: 1, drop_on_end: false, end_all: false, end_one: false }
     }
 }
 
@@ -125,6 +129,12 @@ pub fn case_strategy(g: Gen) -> BoxedStrategy<ChanCase> {
             if g.canceller {
                 producers = (producers, 0u8..12).prop_map(|(mut p, pause)| { p.push(vec![POp::Pause(pause), POp::CancelAll]); p }).boxed();
             }
+            if g.end_all {
+                producers = (producers, 0u8..16).prop_map(|(mut p, pause)| { p.push(vec![POp::Pause(pause), POp::EndAll]); p }).boxed();
+            }
+            if g.end_one {
+                producers = (producers, 0u8..16, any::<u8>()).prop_map(|(mut p, pause, sel)| { p.push(vec![POp::Pause(pause), POp::EndStream(sel)]); p }).boxed();
+            }
             let fresh = if g.fresh_wakers { vec(0u8..5, 0..2).boxed() } else { Just(vec![]).boxed() };
             let churn = g.churn;
             let handles = g.handles;
@@ -137,6 +147,7 @@ pub fn case_strategy(g: Gen) -> BoxedStrategy<ChanCase> {
                 into_shared: handles && h & 2 == 2,
                 max_items: None,
                 drop_on_end: drop_on_end && h & 4 == 4,
+                resubscribe: None,
             });
             let lo = g.min_consumers.min(m as usize).max(1);
             let hi = (m as usize).min(g.max_consumers).max(lo);
@@ -150,8 +161,19 @@ pub fn case_strategy(g: Gen) -> BoxedStrategy<ChanCase> {
             let est: u32 = producers.iter().map(|p| p.len() as u32 * 14).sum::<u32>() + consumers.len() as u32 * 24 + 10;
             (Just(cfg), Just(producers), Just(consumers), Just(prefill), Just(finish_async), sparse_or_any_schedule(n, est))
         })
-        .prop_map(|((kind, buffer, max_streams, origin), producers, consumers, prefill, finish_async, schedule)| {
-            sanitize(ChanCase { kind, buffer, max_streams, origin, prefill, producers, consumers, finish_async, leftovers: false, schedule })
+        .prop_map(move |((kind, buffer, max_streams, origin), producers, consumers, prefill, finish_async, schedule)| {
+            let mut c = sanitize(ChanCase { kind, buffer, max_streams, origin, prefill, producers, consumers, finish_async, leftovers: false, schedule });
+            if g.end_all { for k in c.consumers.iter_mut() { k.drop_on_end = true; k.create_late = false; k.stop_after = None; } }
+            if g.end_one {
+                let n = c.consumers.len() as u8;
+                let mut target = 0u8;
+                for p in c.producers.iter_mut() { for op in p.iter_mut() { if let POp::EndStream(sel) = op { *sel %= n; target = *sel; } } }
+                let resub = c.consumers[target as usize].hold;      // (re-using a generated number: 0 = no re-subscription)
+                let t = &mut c.consumers[target as usize];
+                t.drop_on_end = true; t.create_late = false; t.stop_after = None;
+                t.resubscribe = if resub > 0 { Some(resub * 2) } else { None };
+            }
+            c
         })
         .boxed()
 }
@@ -188,7 +210,7 @@ impl<'a> Facts<'a> {
 fn end_state_verdict(case: &ChanCase, run: &ChanRun) -> Option<Verdict> {
     match &run.end {
         EndState::Completed => None,
-        EndState::Budget => Some(Verdict::Inconclusive("step-budget".into())),
+        EndState::Budget => { if std::env::var("RMV_SHOW_BUDGET").is_ok() { eprintln!("BUDGET {} || {}", serde_json::to_string(case).unwrap_or_default(), run.render()); } Some(Verdict::Inconclusive("step-budget".into())) },
         EndState::Stall { stuck, parked } => Some(Verdict::Violation {
             signature: format!("{}/stall", case.kind.short()),
             detail: format!("no thread can make progress: threads {:?} spin on an operation nobody will ever let succeed (parked: {:?}); history: {}", stuck, parked, run.render()) }),
